@@ -6,7 +6,7 @@ import fcntl, glob, hashlib, json, os, random, re, shutil, subprocess, sys, temp
 ROOT = os.environ.get('VERIF_ROOT') or os.path.dirname(os.path.dirname(os.path.abspath(__file__)))
 LEAN = ROOT + '/lean'
 BUILD = ROOT + '/.build'
-REPO = '/repo'
+REPO = os.environ.get('VERIF_REPO', '/repo')   # the tree under test (override only for mutation experiments)
 GOENV = dict(GOFLAGS='-mod=mod', GOPROXY='off', GOSUMDB='off', GOTOOLCHAIN='local')
 ALLOWED_AXIOMS = {'propext', 'Classical.choice', 'Quot.sound'}
 FORBIDDEN = re.compile(r'\b(sorry|admit|native_decide|bv_decide|implemented_by|unsafe)\b|^\s*axiom\s|maxHeartbeats\s+0', re.M)
